@@ -292,6 +292,7 @@ def native_vals(ty, hexbytes):
 def obligations(ctx):
     decoders_obligation(ctx)
     wrappers_obligation(ctx)
+    text_slicing_obligation(ctx)
 
 
 def decoders_obligation(ctx):
@@ -450,3 +451,59 @@ def wrappers_obligation(ctx):
     ob.bad, ob.outside, ob.ok = bad, outside, ok_
     agg = Engine(P)
     ob.finish(agg)
+
+
+# ---------------------------------------------------------------- (c) text helpers that cut strings at byte offsets
+SLICE_RE = re.compile(r"(<str as (std::ops::)?Index<.*?>>::index|<std::string::String as (std::ops::)?Index<.*?>>::index|<impl str>::split_at\w*|String::(remove|insert|insert_str|truncate|split_off)\b)")
+
+
+def slicing_functions(P):
+    out = []
+    for d, fn in P.fns.items():
+        if "::tests::" in d or "{closure" in d:
+            continue
+        if any(SLICE_RE.search(l) for lines in fn.raw_blocks.values() for l in lines):
+            out.append(d)
+    return sorted(out)
+
+
+def text_slicing_obligation(ctx):
+    from prove import Obligation
+    import strmodel
+    P = ctx.P
+    ob = Obligation(ctx, "c02_e2_text_slicing_total", "", ["every crate function that slices a str / String at a byte offset"], fallback_native="e2n_c02_text_battery")
+    fns = slicing_functions(P)
+    okf, outside = [], {}
+    for d in fns:
+        fn = P.fns[d]
+        E = Engine(P, max_loop=6)
+        E.havoc_external = r"^(hex::|bech32::|<.* as bech32::|serde_json::|core::str::|<str as|<impl str>|std::string::String::|<std::string::String as|std::fmt::|alloc::fmt::format|core::num::|<.* as std::str::FromStr>::from_str|std::str::|<.* as ToString>::to_string|<.* as std::string::ToString>::to_string|<.* as (std::convert::)?(From|Into)<.*>>::)"
+        strmodel.install(E)
+        label = re.sub(r"<impl at [^>]*>::", "", d).split("::")[-1] if "<impl at" not in d else "%s::%s" % (P.impl_of(d)[0], d.split("::")[-1])
+        try:
+            def mkargs(E=E, fn=fn):
+                out = []
+                for i, (_, t) in enumerate(fn.params):
+                    t = t.strip()
+                    if t in ("bool",) or t in INT_TYPES:
+                        out.append(E.materialize(t, "arg%d" % i))
+                    elif t.startswith("&"):
+                        out.append(R(VLazy("arg%d" % i, re.sub(r"^&\s*('\w+\s+)?(mut )?", "", t))))
+                    else:
+                        out.append(VLazy("arg%d" % i, t))
+                return out
+            bad = [o.msg[:160] for o in E.explore(d, mkargs, max_paths=300) if o.kind in ("panic", "unreachable")]
+        except Unsupported as e:
+            outside[label] = str(e)[:120]; continue
+        except PathAbort as e:
+            outside[label] = "path abort " + e.msg[:100]; continue
+        except (AttributeError, TypeError, IndexError, KeyError, ValueError, AssertionError, RecursionError) as e:
+            outside[label] = "engine error %r" % (e,); continue
+        okf.append(label)
+        for b in bad[:1]:
+            ob.violation("%s can panic on a string argument: %s" % (label, b))
+    ob.queries += len(fns)
+    ob.bound = ("%d functions contain a string cut (index by range, split_at, String::remove/insert/truncate/split_off); executed on arbitrary strings under the boundary theory of mir2smt/strmodel.py: %s. "
+                "Outside the engine's reach (not claimed): %s" % (len(fns), ", ".join(okf) or "none", "; ".join("%s [%s]" % kv for kv in sorted(outside.items())) or "none"))
+    ctx.log("  [E2] text slicing: %d functions with a string cut, %d executed, outside: %s" % (len(fns), len(okf), {k: v[:70] for k, v in outside.items()}))
+    ob.finish(Engine(P))
